@@ -594,6 +594,7 @@ class Watcher(object):
         if self.pending_socket_event:
             if not self.processes:
                 self._status = "stopped"
+                self.notify_event("stop", {"time": time.time()})
             return
         for i in self._found_wids:
             self.spawn_process(i)
